@@ -18,6 +18,9 @@ import Proofs.GenTables
 #print axioms Xsel.C08.string_roundtrip_model
 #print axioms Xsel.C08.string_roundtrip_spec
 #print axioms Xsel.C08.sampleTree_spelling
+#print axioms Xsel.C08.parser_fuel_adequate
+#print axioms Xsel.C08.abbreviations_are_expansions
+#print axioms Xsel.C08.abbreviations_are_expansions'
 #print axioms Xsel.Gen.handlers_agree
 #print axioms Xsel.Gen.productions_agree
 #print axioms Xsel.Gen.no_dropped_symbol
